@@ -18,7 +18,7 @@ from vf import gen, pan
 
 ID = "C16"
 LEVEL = "exploration"
-TECHNIQUE = "runtime monitoring: event log on traced locks/file operations of the real aggregator + controlled scheduling (seeded random walk, PCT, preemption-bounded systematic search) on threads and noise injection on threads / forked processes; offline history checker (exactly-once rows, intact rows, sequential values, no logical deadlock, snapshot consistency)"
+TECHNIQUE = "runtime monitoring: event log on traced locks/file operations of the real aggregator + controlled scheduling (seeded random walk, PCT, preemption-bounded systematic search) on threads and noise injection on threads / forked processes; offline history checker (exactly-once rows, intact rows, sequential values, no logical deadlock, snapshot consistency); fork-safety monitor on every threading lock the package creates (holder tracked across fork, witness written by a worker that waits for a lock whose holder does not exist in it)"
 RULE = (
     "cases = schedules of short histories: 2..4 workers x 1..3 calls (evaluate with distinct and colliding subject names, "
     "make_statistic) on one shared aggregator. Controlled scheduler on threads: seeded random walk, PCT with d in {1,2,3}, "
